@@ -4,7 +4,13 @@
 package kvp
 
 import (
+	"bufio"
+	"encoding/json"
+	"errors"
 	"fmt"
+	"os"
+	"sync"
+	"time"
 
 	"verifharness/replay"
 
@@ -13,13 +19,37 @@ import (
 	"github.com/Fantom-foundation/lachesis-base/kvdb/memorydb"
 )
 
-// countingProducer is the underlying producer of C27: it only counts what reaches it.
+// countingProducer is the underlying producer of C27: it only counts what reaches it.  On demand it
+// fails the next OpenDB of a name (transient fault) and, in the concurrent mode, records every call
+// that reaches it and holds the first one that arrives while the gate is armed.
 type countingProducer struct {
-	opens, closes, drops map[string]int
+	mu                          sync.Mutex
+	opens, closes, drops, fails map[string]int
+	failNext                    map[string]bool
+	record                      func(rec)
+	armed                       bool
+	entered                     chan struct{}
+	release                     chan struct{}
 }
 
 func newCountingProducer() *countingProducer {
-	return &countingProducer{opens: map[string]int{}, closes: map[string]int{}, drops: map[string]int{}}
+	return &countingProducer{opens: map[string]int{}, closes: map[string]int{}, drops: map[string]int{}, fails: map[string]int{},
+		failNext: map[string]bool{}}
+}
+
+// reached is called at the entry of every underlying call
+func (p *countingProducer) reached(kind, name string) {
+	p.mu.Lock()
+	if p.record != nil {
+		p.record(rec{"op": kind, "n": name})
+	}
+	hold := p.armed
+	p.armed = false
+	p.mu.Unlock()
+	if hold {
+		p.entered <- struct{}{}
+		<-p.release
+	}
 }
 
 type countingStore struct {
@@ -28,11 +58,34 @@ type countingStore struct {
 	name string
 }
 
-func (s *countingStore) Close() error { s.p.closes[s.name]++; return nil }
-func (s *countingStore) Drop()        { s.p.drops[s.name]++ }
+func (s *countingStore) Close() error {
+	s.p.reached("uclose", s.name)
+	s.p.mu.Lock()
+	s.p.closes[s.name]++
+	s.p.mu.Unlock()
+	return nil
+}
+
+func (s *countingStore) Drop() {
+	s.p.reached("udrop", s.name)
+	s.p.mu.Lock()
+	s.p.drops[s.name]++
+	s.p.mu.Unlock()
+}
 
 func (p *countingProducer) OpenDB(name string) (kvdb.Store, error) {
+	p.mu.Lock()
+	if p.failNext[name] {
+		p.failNext[name] = false
+		p.fails[name]++
+		p.mu.Unlock()
+		return nil, errors.New("transient failure of the underlying producer")
+	}
+	p.mu.Unlock()
+	p.reached("uopen", name)
+	p.mu.Lock()
 	p.opens[name]++
+	p.mu.Unlock()
 	return &countingStore{Store: memorydb.New(), p: p, name: name}, nil
 }
 func (p *countingProducer) Names() []string        { return nil }
@@ -54,7 +107,10 @@ func (in *cachedInst) Close() {}
 
 func (in *cachedInst) call(op, n string) (map[string]interface{}, error) {
 	switch op {
-	case "open":
+	case "open", "openfail":
+		if op == "openfail" {
+			in.under.failNext[n] = true
+		}
 		st, err := in.prod.OpenDB(n)
 		prev := in.latest[n]
 		same := prev != nil && err == nil && st == prev
@@ -98,7 +154,8 @@ func (in *cachedInst) Project() interface{} {
 		}
 		return out
 	}
-	return map[string]interface{}{"uopen": pick(in.under.opens), "uclose": pick(in.under.closes), "udrop": pick(in.under.drops)}
+	return map[string]interface{}{"uopen": pick(in.under.opens), "uclose": pick(in.under.closes), "udrop": pick(in.under.drops),
+		"ufail": pick(in.under.fails)}
 }
 
 func newCached(all bool) func(pre interface{}) (replay.Inst, error) {
@@ -142,4 +199,199 @@ func CachedAdapters() []replay.Adapter {
 		{Name: "cached-wrap", New: newCached(false)},
 		{Name: "cached-wrapall", New: newCached(true)},
 	}
+}
+
+// ---------------------------------------------------------------------------------------------
+// concurrent mode: vh cachedconc <scenarios.ndjson> <trace.ndjson>
+
+type concCall struct {
+	Op string `json:"op"`
+	N  string `json:"n"`
+}
+
+type concScenario struct {
+	Hist  []concCall    `json:"hist"`
+	Names []string      `json:"names"`
+	Pairs [][2]concCall `json:"pairs"`
+}
+
+type concRecorder struct {
+	mu sync.Mutex
+	w  *bufio.Writer
+	n  int
+}
+
+func (r *concRecorder) emit(x rec) {
+	r.mu.Lock()
+	b, _ := json.Marshal(x)
+	r.w.Write(b)
+	r.w.WriteByte('\n')
+	r.n++
+	r.mu.Unlock()
+}
+
+// runConc: history sequentially, then x from goroutine 1 (held inside its first underlying call, if it makes
+// one) and y from goroutine 2 meanwhile.
+func runConc(all bool, sc *concScenario, x, y concCall, scen int, r *concRecorder, stats map[string]int) error {
+	in := &cachedInst{under: newCountingProducer(), latest: map[string]kvdb.Store{}, names: sc.Names}
+	in.under.record = r.emit
+	in.under.entered = make(chan struct{}, 1)
+	in.under.release = make(chan struct{})
+	if all {
+		in.prod = cachedproducer.WrapAll(in.under)
+	} else {
+		in.prod = cachedproducer.Wrap(in.under)
+	}
+	mode := "wrap"
+	if all {
+		mode = "wrapall"
+	}
+	r.emit(rec{"op": "reset", "scen": scen, "mode": mode, "hist": sc.Hist, "x": x, "y": y})
+	var lmu sync.Mutex // protects in.latest between the two goroutines
+	do := func(g int, c concCall) (err error) {
+		defer func() {
+			if p := recover(); p != nil {
+				err = fmt.Errorf("panic in %s(%s): %v", c.Op, c.N, p)
+			}
+		}()
+		r.emit(rec{"op": "call", "g": g, "call": c.Op, "n": c.N})
+		var res map[string]interface{}
+		switch c.Op {
+		case "open":
+			st, e := in.prod.OpenDB(c.N)
+			lmu.Lock()
+			if e == nil {
+				in.latest[c.N] = st
+			}
+			lmu.Unlock()
+			res = map[string]interface{}{"err": e != nil}
+		case "close":
+			lmu.Lock()
+			st := in.latest[c.N]
+			lmu.Unlock()
+			res = map[string]interface{}{"err": st.Close() != nil}
+		case "drop":
+			lmu.Lock()
+			st := in.latest[c.N]
+			lmu.Unlock()
+			st.Drop()
+			res = map[string]interface{}{"err": false}
+		default:
+			return fmt.Errorf("unknown call %q", c.Op)
+		}
+		r.emit(rec{"op": "ret", "g": g, "call": c.Op, "n": c.N, "res": res})
+		return nil
+	}
+	for _, h := range sc.Hist {
+		if err := do(0, h); err != nil {
+			return err
+		}
+	}
+	in.under.mu.Lock()
+	in.under.armed = true
+	in.under.mu.Unlock()
+	done1 := make(chan error, 1)
+	go func() { done1 <- do(1, x) }()
+	held := false
+	select {
+	case <-in.under.entered:
+		held = true
+		stats["held_in_"+x.Op]++
+	case err := <-done1:
+		if err != nil {
+			return err
+		}
+		done1 = nil
+		stats["not_held"]++
+	case <-time.After(10 * time.Second):
+		return errors.New("first call neither returned nor reached the underlying producer")
+	}
+	in.under.mu.Lock()
+	in.under.armed = false
+	in.under.mu.Unlock()
+	done2 := make(chan error, 1)
+	go func() { done2 <- do(2, y) }()
+	released := false
+	if held {
+		select {
+		case err := <-done2:
+			if err != nil {
+				return err
+			}
+			done2 = nil
+			stats["second_completed_while_first_held"]++
+		case <-time.After(300 * time.Millisecond):
+			stats["second_waited_for_first"]++
+		}
+		close(in.under.release)
+		released = true
+	}
+	_ = released
+	for _, ch := range []chan error{done1, done2} {
+		if ch == nil {
+			continue
+		}
+		select {
+		case err := <-ch:
+			if err != nil {
+				return err
+			}
+		case <-time.After(10 * time.Second):
+			return errors.New("a call did not return")
+		}
+	}
+	return nil
+}
+
+func CmdCachedConc(args []string) int {
+	if len(args) < 2 {
+		fmt.Fprintln(os.Stderr, "usage: vh cachedconc <scenarios.ndjson> <trace.ndjson>")
+		return 2
+	}
+	in, err := os.Open(args[0])
+	if err != nil {
+		fmt.Fprintln(os.Stderr, err)
+		return 2
+	}
+	defer in.Close()
+	out, err := os.Create(args[1])
+	if err != nil {
+		fmt.Fprintln(os.Stderr, err)
+		return 2
+	}
+	defer out.Close()
+	r := &concRecorder{w: bufio.NewWriterSize(out, 1<<20)}
+	defer r.w.Flush()
+	stats := map[string]int{}
+	scen := 0
+	sc := bufio.NewScanner(in)
+	sc.Buffer(make([]byte, 1<<20), 1<<26)
+	for sc.Scan() {
+		if len(sc.Bytes()) == 0 {
+			continue
+		}
+		var s concScenario
+		if err := json.Unmarshal(sc.Bytes(), &s); err != nil {
+			fmt.Fprintln(os.Stderr, "bad scenario line:", err)
+			return 2
+		}
+		for _, pr := range s.Pairs {
+			for _, all := range []bool{false, true} {
+				scen++
+				if err := runConc(all, &s, pr[0], pr[1], scen, r, stats); err != nil {
+					// a panic or a hang of the real code is an observation, not a harness failure: record it
+					r.emit(rec{"op": "failure", "scen": scen, "error": err.Error()})
+					stats["failures"]++
+				}
+				stats["scenarios"]++
+				if pr[0].N == pr[1].N {
+					stats["same_name_pairs"]++
+				}
+				stats["pair_"+pr[0].Op+"_"+pr[1].Op]++
+			}
+		}
+	}
+	stats["lines"] = r.n
+	json.NewEncoder(os.Stdout).Encode(stats)
+	return 0
 }
